@@ -60,7 +60,7 @@ structure Cluster where
   fronts : List Front
   backends : List Backend
   /-- a `[clusters.<id>.health_check]` block that `validate_health_check_config`
-      refuses (the loader does not call it; `ConfigState::add_cluster` does) -/
+      refuses (`to_cluster_config` and `ConfigState::add_cluster` both call it) -/
   hcBad : Bool := false
   deriving DecidableEq, Repr
 
@@ -90,6 +90,7 @@ inductive LoadErr where
   | wrongFrontendProtocol -- WrongFrontendProtocol(_)
   | proxyProtocolMix      -- Incompatible{ProxyProtocol}
   | bufferTooSmallForH2   -- BufferSizeTooSmallForH2
+  | invalidHealthCheck    -- InvalidHealthCheck (validate_health_check_config at load)
   deriving DecidableEq, Repr
 
 def Cfg.listeners (c : Cfg) : List Listener := c.http ++ c.https ++ c.tcp ++ c.udp
@@ -155,7 +156,8 @@ def proxyMixOk (c : Cfg) (fs : List Front) : Bool :=
 def addClusters : Cfg → List Cluster → Except LoadErr Cfg
   | c, [] => .ok c
   | c, k :: ks =>
-    if k.tcp then
+    if k.hcBad then .error .invalidHealthCheck
+    else if k.tcp then
       if !proxyMixOk c k.fronts then .error .proxyProtocolMix else
       match tcpFronts c [] k.fronts with
       | .error e => .error e
